@@ -298,7 +298,8 @@ def families(thorough):
               ["q:SET SHARDING KEY TO '1'", 'qdc|1|%s| */ SELECT 1' % sk, 'select']):
         s.append(Case(t, stop='X', shards=two_shards, custom=True, regex=True))
     if thorough:
-        for t in (['qdc|2|%s| */ SELECT 1' % sk, 'select'], ['pdc|2||%s| */ SELECT 1' % sk, 'B', 'E', 'S', 'select'], ['pdc|1<3|s1|%s| */ SELECT 1' % si, 'Bs', 'E', 'S', 'select']):
+        # (two symbolic digits multiply the paths of the key hash beyond the per-chunk bound: one symbolic digit next to a concrete one)
+        for t in (['qdc|1|%s4| */ SELECT 1' % sk, 'select'], ['pdc|1||%s7| */ SELECT 1' % sk, 'B', 'E', 'S', 'select'], ['pdc|1<3|s1|%s| */ SELECT 1' % si, 'Bs', 'E', 'S', 'select']):
             s.append(Case(t, stop='X', shards=[(0,), (0,), (0,)], custom=True, regex=True))
     F['commands'] = s
     # -- two backends (either may be picked at checkout)
